@@ -634,11 +634,12 @@ class Network(Cached):
             (np.ones_like(edges.T[0]), tuple(edges.T)), shape=(N, N))
 
         #  Extract node weights
-        if "node_weight_nsi" in graph.vs.attribute_names():
-            node_weights = np.array(
-                graph.vs.get_attribute_values("node_weight_nsi"))
-        else:
-            node_weights = None
+        #  (the GML format strips underscores from attribute names)
+        node_weights = None
+        for key in ("node_weight_nsi", "nodeweightnsi"):
+            if key in graph.vs.attribute_names():
+                node_weights = np.array(graph.vs.get_attribute_values(key))
+                break
 
         net = Network(adjacency=sp_A, directed=directed,
                       node_weights=node_weights, silence_level=silence_level)
